@@ -84,21 +84,8 @@ fn instrumented(lines: &[String], replies: &[String], model: Option<&ProgramAst>
     // model states: obs after j steps
     let mut mobs: Vec<Obs> = vec![];
     if let Some(p) = model {
-        let mut m = Machine::new(p.clone(), 1);
-        mobs.push(model_obs(&m));
-        for _ in 0..1500 {
-            match m.step(None) {
-                Step::Ran => mobs.push(model_obs(&m)),
-                Step::Ended => {
-                    mobs.push(model_obs(&m));
-                    break;
-                }
-                _ => {
-                    mobs.push(model_obs(&m));
-                    break;
-                }
-            }
-        }
+        mobs.push(model_obs(&Machine::new(p.clone(), 1)));
+        let _ = crate::c03::run_model_script(p, 1, false, replies, |m| mobs.push(model_obs(m)));
         acc.lockstep_programs += 1;
     }
     let mut possible: HashSet<usize> = [0usize].into_iter().collect();
@@ -241,6 +228,30 @@ pub fn run(thorough: bool) -> Report {
                     let prog = layout(&seq, j);
                     let lines = render_program(&prog);
                     instrumented(&lines, &[], Some(&prog), has_fn, &mut acc, "grammar program");
+                }
+                merge(&total, acc);
+            });
+        }
+    }
+
+    // (2a) the INPUT family with reply scripts: the call that meets INPUT and the call that
+    // consumes the reply are one reference step each
+    {
+        let menu = input_menu();
+        let base = menu.len() as u64;
+        let n = if thorough { 4 } else { 3 };
+        for len in 1..=n {
+            let joins = join_patterns(len, len <= 3);
+            (0..pow(base, len)).into_par_iter().for_each(|i| {
+                let idxs = decode_seq(i, base, len);
+                let seq: Vec<T> = idxs.iter().map(|k| menu[*k].1.clone()).collect();
+                let mut acc = Acc::default();
+                for &j in &joins {
+                    let prog = layout(&seq, j);
+                    let lines = render_program(&prog);
+                    for si in if thorough { vec![1usize, 3] } else { vec![3usize] } {
+                        instrumented(&lines, &crate::c08::script(si, 8), Some(&prog), false, &mut acc, "grammar program with an input script");
+                    }
                 }
                 merge(&total, acc);
             });
